@@ -189,14 +189,16 @@ type world struct {
 	nextM  int
 	seqNo  int // payload counter (unique data per local change)
 
-	emitted []*message // messages produced by the current step
-	actor   int        // replica whose code runs in the current step
-	ops     []string   // op lines sent to the model so far (replay trace)
-	batch   int        // response batch size in bytes (0 = production default)
-	nomodel bool
-	abort   bool // schedule not meaningful (pruned by the enumerator)
-	failed  bool
-	errs    map[string]int
+	emitted   []*message // messages produced by the current step
+	actor     int        // replica whose code runs in the current step
+	ops       []string   // op lines sent to the model so far (replay trace)
+	batch     int        // response batch size in bytes (0 = production default)
+	nomodel   bool
+	abort     bool     // schedule not meaningful (pruned by the enumerator)
+	phase     [][2]int // if set: the anti-entropy phase is exactly these exchanges, in this order
+	failed    bool     // a property violation was recorded (or the schedule cannot go on)
+	disagreed bool     // the model was left behind in this schedule
+	errs      map[string]int
 }
 
 func peerName(i int) string { return fmt.Sprintf("peer%d", i) }
@@ -514,6 +516,7 @@ func (w *world) recovering(what string, f func() error) (err error) {
 
 func (w *world) violate(stream, desc string) {
 	w.failed = true
+	violations++
 	w.r.Violate("C01", "", stream, desc, append([]string(nil), w.ops...))
 }
 
